@@ -560,6 +560,8 @@ func (fr *Frame) defProps() []string {
 
 func (vc *VC) loopHead(fr *Frame, li *loopInfo, st *State, reach string) *State {
 	vc.comment(fmt.Sprintf("loop %d head", li.ordinal))
+	// pairwise definitions revealed before this loop are not carried into it
+	vc.curScope++
 	if li.spec != nil && len(li.spec.PreHints) > 0 {
 		henv := vc.envFor(fr, st)
 		vc.loopHash(fr, li, st, henv)
@@ -596,10 +598,14 @@ func (vc *VC) loopHead(fr *Frame, li *loopInfo, st *State, reach string) *State 
 		for _, h := range heaps {
 			vc.havocHeap(n, h)
 		}
-		for g := range n.ghosts {
-			if gv := vc.P.ghosts[g]; gv != nil && !gv.Const {
-				n.ghosts[g] = vc.fresh("lh_g_"+g, vc.S.tySort(vc.tyOfTypeExprL(gv.Type, true)))
+		gset, gall := fr.loopGhosts(li)
+		for _, g := range vc.P.ghostOrder {
+			gv := vc.P.ghosts[g]
+			if gv == nil || gv.Const || !(gall || gset[g]) {
+				continue
 			}
+			vc.ghost(n, g) // materialise first so that the pre-loop value keeps its name
+			n.ghosts[g] = vc.fresh("lh_g_"+g, vc.S.tySort(vc.tyOfTypeExprL(gv.Type, true)))
 		}
 	}
 	na := vc.fresh("alloc", "Int")
@@ -1295,6 +1301,12 @@ func (vc *VC) execBinOp(fr *Frame, st *State, reach string, x *ssa.BinOp) {
 		vc.unsupportedf("%s: binary op %s", fr.key, x.Op)
 		s = vc.fresh("binop", vc.S.sortOf(x.Type()))
 	}
+	if (x.Op == token.ADD || x.Op == token.SUB) && isInt(t) && len(s) < 80 {
+		// small integer expressions stay inline so that terms such as "index + 1" are syntactically the same
+		// wherever they are built (loop head, loop body, ghost blocks)
+		fr.regs[x] = Val{T: x.Type(), S: s}
+		return
+	}
 	fr.regs[x] = Val{T: x.Type(), S: vc.define(x.Name(), vc.S.sortOf(x.Type()), s)}
 }
 
@@ -1620,4 +1632,129 @@ func (vc *VC) immutableAfter(al *ssa.Alloc) bool {
 		return true
 	}
 	return n <= 1 && visit(al.Parent())
+}
+
+// loopGhosts: the ghost variables a loop may change: those set by ghost hints of the function, those listed as
+// ghost(...) in the modifies clause of a callee inside the loop, the send trace for Send instructions;
+// a call without contract inside the loop may change all of them
+func (fr *Frame) loopGhosts(li *loopInfo) (map[string]bool, bool) {
+	vc := fr.vc
+	out := map[string]bool{}
+	all := false
+	top := fr.topFrame()
+	if top.spec != nil {
+		addHints := func(hs []*Hint) {
+			for _, h := range hs {
+				if h.Kind == "set" || h.Kind == "havoc" {
+					out[h.Name] = true
+				}
+			}
+		}
+		for _, gp := range top.spec.Ghosts {
+			addHints(gp.Hints)
+		}
+		for _, ls := range top.spec.Loops {
+			addHints(ls.Hints)
+			addHints(ls.EndHints)
+			addHints(ls.PreHints)
+		}
+	}
+	addSpec := func(s *FuncSpec) {
+		for _, m := range s.Modifies {
+			if c, ok := m.(*Call); ok && c.Fun == "ghost" {
+				for _, a := range c.Args {
+					if id, ok := a.(*Ident); ok {
+						out[id.Name] = true
+					}
+				}
+			}
+		}
+	}
+	for b := range li.blocks {
+		for _, in := range b.Instrs {
+			switch x := in.(type) {
+			case *ssa.Send:
+				out["sendLen"], out["sendChan"], out["sendVal"] = true, true, true
+			case ssa.CallInstruction:
+				common := x.Common()
+				if _, isB := common.Value.(*ssa.Builtin); isB {
+					continue
+				}
+				if common.IsInvoke() {
+					if ms := vc.P.methods[typeKey(common.Value.Type())+"."+common.Method.Name()]; ms != nil {
+						addSpec(ms.Spec)
+						continue
+					}
+					impls := vc.implsOf(common.Value.Type(), common.Method.Name())
+					if len(impls) == 0 {
+						all = true
+					}
+					for _, im := range impls {
+						if im.spec == nil {
+							all = true
+						} else {
+							addSpec(im.spec)
+						}
+					}
+					continue
+				}
+				callee := common.StaticCallee()
+				if callee == nil {
+					callee = vc.staticFn(fr, common.Value, 0)
+				}
+				if callee == nil {
+					// dynamic call: type contract
+					tcName := ""
+					if nt, ok := types.Unalias(common.Value.Type()).(*types.Named); ok {
+						tcName = shortPkg(nt.Obj().Pkg()) + "." + nt.Obj().Name()
+					}
+					if top.spec != nil && top.spec.DynCalls != nil {
+						if v, ok := top.spec.DynCalls[fr.ordinal[in]]; ok {
+							tcName = v
+						}
+					}
+					if tc := vc.P.typeCons[tcName]; tc != nil {
+						addSpec(tc.Spec)
+					} else {
+						all = true
+					}
+					continue
+				}
+				key := vc.P.fnKeys[callee]
+				found := false
+				for _, s := range vc.P.specs[key] {
+					addSpec(s)
+					found = true
+				}
+				if !found {
+					if callee.Blocks != nil && vc.P.repoPkgs[pkgOf(callee)] && vc.canInline(fr, callee) {
+						// inlined bodies: conservatively look one level down
+						for _, b2 := range callee.Blocks {
+							for _, in2 := range b2.Instrs {
+								if c2, ok := in2.(ssa.CallInstruction); ok {
+									if f2 := c2.Common().StaticCallee(); f2 != nil {
+										ok2 := false
+										for _, s := range vc.P.specs[vc.P.fnKeys[f2]] {
+											addSpec(s)
+											ok2 = true
+										}
+										if !ok2 {
+											if _, isB := c2.Common().Value.(*ssa.Builtin); !isB && !(f2.Blocks != nil && vc.canInline(fr, f2)) {
+												all = true
+											}
+										}
+									} else if _, isB := c2.Common().Value.(*ssa.Builtin); !isB {
+										all = true
+									}
+								}
+							}
+						}
+					} else {
+						all = true
+					}
+				}
+			}
+		}
+	}
+	return out, all
 }
